@@ -190,6 +190,9 @@ func descKey(target string, c *Call, a, b, patchText []byte) string {
 	if a == nil {
 		sb.WriteString("|anil")
 	}
+	if b == nil {
+		sb.WriteString("|bnil")
+	}
 	return sb.String()
 }
 
@@ -369,6 +372,12 @@ func (rn *runner) planPristine(prelude, calls []Call, slotSrc []int) []pristineP
 		if usesB(c.Fn) && c.B >= 0 && c.B < len(rn.sc.Bufs) {
 			b = rn.sc.Bufs[c.B]
 		}
+		if c.NilA {
+			a = nil
+		}
+		if c.NilB {
+			b = nil
+		}
 		if c.Fn == FnDecodePatch {
 			if c.Slot >= 0 && c.Slot < len(slotSrc) {
 				slotSrc[c.Slot] = c.A | c.Corrupt<<20
@@ -432,10 +441,10 @@ func (rn *runner) execCalls(ts *taskState, calls []Call, want []pristinePair) {
 			}
 			return rn.bufs[idx].view, nil
 		}
-		if c.Fn != FnAccessors {
+		if c.Fn != FnAccessors && !c.NilA {
 			args.a, pa = arg(c.A, c.PrivA, 0)
 		}
-		if usesB(c.Fn) {
+		if usesB(c.Fn) && !c.NilB {
 			args.b, pb = arg(c.B, c.PrivB, 1)
 		}
 		if usesSlot(c.Fn) {
